@@ -22,7 +22,7 @@ from lib.vlib import jdump
 PKG = "pkg/filters/proxy"
 
 INVS = "INVARIANTS TypeOK RRFair Member NilIffEmpty NoZeroWeight HeldOK\n"
-PROPS = INVS + "PROPERTIES Sticky StickyPick\n"
+PROPS = INVS + "PROPERTIES Sticky StickyPick StickyRebuild\n"
 # requests with several attempts (LoadBalanceRetry.tla)
 RETRY_PROPS = "INVARIANTS AttemptOK NoZeroWeightRetry\nPROPERTIES StickyRetry\n"
 
@@ -41,11 +41,12 @@ def contract_cfg(configs, insts, procs, keys, maxsel, maxgen, spec="GSpec", age=
             ) + PROPS + "PROPERTIES ReplaceRule\n" + (RETRY_PROPS + "INVARIANTS AttBound\n" if retry else "")
 
 
-def impl_cfg(configs, insts, procs, keys, maxsel, maxgen, atomic=True, fixed=True, hrange=2, ctrbits=0, age=NO_AGE):
+def impl_cfg(configs, insts, procs, keys, maxsel, maxgen, atomic=True, fixed=True, hrange=2, ctrbits=0, age=NO_AGE, reseed=False):
     return ("SPECIFICATION ISpec\nCONSTANTS\n  Configs <- %s\n  InstSets <- %s\n  Procs = {%s}\n  Keys = {%s}\n"
-            "  MaxSel = %d\n  MaxGen = %d\n  AtomicRR = %s\n  FixedWR = %s\n  HashRange = %d\n  CtrBits = %d\n%sVIEW iview\n"
-            % (configs, insts, _strs(procs), _strs(keys), maxsel, maxgen, str(atomic).upper(), str(fixed).upper(), hrange, ctrbits, age)
-            ) + INVS.strip() + " NoPanic ObjIsList\nPROPERTIES Refines Sticky StickyPick\n"
+            "  MaxSel = %d\n  MaxGen = %d\n  AtomicRR = %s\n  FixedWR = %s\n  HashRange = %d\n  CtrBits = %d\n  Reseed = %s\n%sVIEW iview\n"
+            % (configs, insts, _strs(procs), _strs(keys), maxsel, maxgen, str(atomic).upper(), str(fixed).upper(), hrange, ctrbits,
+               str(reseed).upper(), age)
+            ) + INVS.strip() + " NoPanic ObjIsList\nPROPERTIES Refines Sticky StickyPick StickyRebuild\n"
 
 
 def _strs(xs):
@@ -82,7 +83,10 @@ def _run(ctx):
                        "a positive/zero weight mix, more selections than servers")
     ctx.assumptions += ["service discovery is played by the harness calling ServerPool.useService, as the pool's watcher goroutine does",
                         "discovered weights are non-negative",
-                        "a hash policy's stickiness is required within one generation of the list (a discovery report starts a new one)",
+                        "a hash policy's stickiness is required while the list is unchanged: within one balancer, and across a rebuild of "
+                        "the balancer (discovery report) that yields the same servers in the same order - the static list fallen back to "
+                        "again, or the same instances coming out of the registry's map in the same order (observed on the balancer built); "
+                        "a report that changes the members, their weights or their order starts a new list",
                         "'after any number k of selections' is exercised for k < 2^63 (k0 = 2^b - d earlier selections, b <= 62): a "
                         "round robin balancer after k0 selections is obtained by advancing its only integer field (the selection "
                         "counter, whatever its width) by k0 in that field's own arithmetic",
@@ -138,7 +142,8 @@ def _mc(ctx):
         # implementation-shaped layer refines the contract
         runs = [("RRConfigs", "McInstSets", g2, ["k0"], 4 if q else 5, 2 if q else 3, 2),
                 ("WRConfigs", "McInstSets", g2, ["k0"], 3 if q else 4, 2, 2),
-                ("HashConfigs", "McInstSets", g2, ["k0", "k1"], 3 if q else 4, 2, 2 if q else 3)]
+                # (three generations: the same instances reported twice come out in the same order or in another one)
+                ("HashConfigs", "McInstSets", g2, ["k0", "k1"], 3 if q else 4, 3, 2 if q else 3)]
         if not q:
             runs.append(("RRConfigs", "McInstSets", g3, ["k0"], 4, 2, 2))
         for (cf, ins, pr, ks, ms, mg, hr) in runs:
@@ -152,6 +157,9 @@ def _mc(ctx):
                                       count=False, workers=2)
         jobs["neg-wrap"] = ex.submit(ctx.tlc_mc, "LoadBalanceImpl_MC", impl_cfg("RROnlyConfigs", "McInstSets", g2, ["k0"], 3, 2, ctrbits=3, age=MC_AGE),
                                      label="negative control: 3-bit round robin counter that wraps", expect_ok=False, count=False, workers=2)
+        jobs["neg-reseed"] = ex.submit(ctx.tlc_mc, "LoadBalanceImpl_MC", impl_cfg("HashConfigs", "McInstSets", g2, ["k0"], 3, 2, reseed=True),
+                                       label="negative control: hash function drawn per balancer object", expect_ok=False, count=False,
+                                       workers=2)
         jobs["neg-retry"] = ex.submit(
             ctx.tlc_mc, "LoadBalance_Gen", contract_cfg("McRetryConfigs", "McInstSets", g2, ["k0"], 3, 2, spec="GBadRetrySpec", retry=True),
             label="negative control: a retry that gives up when only the server that failed before is offered", expect_ok=False,
@@ -166,6 +174,9 @@ def _mc(ctx):
     r = res["neg-wrap"]
     if r.violated not in ("RRFair", "Refines"):
         ctx.inconclusive("negative control (round robin counter that wraps) was not rejected by TLC: %s" % r.error)
+    r = res["neg-reseed"]
+    if r.violated not in ("Refines", "StickyRebuild"):
+        ctx.inconclusive("negative control (hash seeded per balancer object) was not rejected by TLC: %s" % r.error)
     r = res["neg-retry"]
     if r.violated != "AttemptOK":
         ctx.inconclusive("negative control (retry that gives up for lack of an untried server) was not rejected by TLC: %s" % r.error)
